@@ -12,4 +12,57 @@ theorem c02_no_panic {caps : List Caps} {u : Nat} {s : St} (h : Reachable caps u
   have := (stopInv_reach h).noErrClose
   exact ⟨this.2, this.1⟩
 
+/-- the actions of the thread that executes the body of `Shutdown()`, plus the two environment events it
+waits for: a runnable's `Stop()` returning and the shutdown timer firing -/
+def isBodyAct : Act → Bool
+  | .sdStopInvoke | .stopReturn | .sdCancel | .sdWaitDone | .shutdownTimeout | .sdClose => true
+  | _ => false
+
+/-- **The body of `Shutdown()` is never stuck** (any state, reachable or not): while it is under way,
+its next action is enabled — it calls the next `Stop()`, or cancels the context, or, while it waits,
+the timer can fire — except that inside a `Stop()` call it waits for that call to return, which is
+the hypothesis of the property ("Stop blocks at most until its Run has returned"). In particular it
+never waits for anything but a runnable's `Stop()` and the bounded wait for the goroutines. -/
+theorem c02_body_never_stuck (s : St) (h1 : s.sd ≠ .idle) (h2 : s.sd ≠ .finished) :
+    ∃ a, isBodyAct a = true ∧ (step s a).isSome = true := by
+  cases hsd : s.sd with
+  | idle => exact absurd hsd h1
+  | finished => exact absurd hsd h2
+  | waiting => exact ⟨.shutdownTimeout, rfl, by simp [step, hsd]⟩
+  | afterWait b => exact ⟨.sdClose, rfl, by simp [step, hsd]⟩
+  | stopping k b =>
+    cases b with
+    | true => exact ⟨.stopReturn, rfl, by simp [step, hsd]⟩
+    | false =>
+      cases k with
+      | zero => exact ⟨.sdCancel, rfl, by simp [step, hsd]⟩
+      | succ k => exact ⟨.sdStopInvoke, rfl, by simp [step, hsd]⟩
+
+/-- **`Shutdown()` can always be completed**: from any state in which its body still has `k` runnables to
+stop, the sequence "call Stop, Stop returns" `k` times, cancel, timer (or goroutines done), close
+leads to the end of the body with the `Once` released — for every `k`, i.e. for any number of runnables. -/
+theorem c02_body_can_finish (k : Nat) (s : St) (hsd : s.sd = .stopping k false) :
+    ∃ as s', (∀ a ∈ as, isBodyAct a = true) ∧ run lts s as = some s' ∧ s'.sd = .finished ∧ s'.once = .done := by
+  induction k generalizing s with
+  | zero =>
+    refine ⟨[.sdCancel, .shutdownTimeout, .sdClose],
+      { s with sd := .finished, once := .done, ctx := true, byShutdown := true }, by simp [isBodyAct], ?_, rfl, rfl⟩
+    simp [run, lts, step, hsd]
+  | succ k ih =>
+    -- one Stop() call and its return
+    let s1 : St := ({ s with sd := .stopping (k + 1) true }.emit (.stopInvoke k))
+    let s2 : St := ({ s1 with sd := .stopping k false }.emit (.stopReturn k))
+    have h1 : step s .sdStopInvoke = some s1 := by simp [step, hsd, s1]
+    have h2 : step s1 .stopReturn = some s2 := by simp [step, s1, s2, St.emit]
+    obtain ⟨as, s', hall, hrun, hfin, honce⟩ := ih s2 (by simp [s2, St.emit])
+    refine ⟨.sdStopInvoke :: .stopReturn :: as, s', ?_, ?_, hfin, honce⟩
+    · intro a ha
+      simp only [List.mem_cons] at ha
+      rcases ha with rfl | rfl | ha
+      · rfl
+      · rfl
+      · exact hall a ha
+    · simp only [run, lts] at hrun ⊢
+      simp [h1, h2, hrun]
+
 end GoSup.Props.C02
